@@ -59,7 +59,12 @@
 (*                                                                         *)
 (* ACTIONS (one per public operation; OpNames in the cfg selects a family) *)
 (*   table : WriteText ReadText WriteHdf WriteHdfObj ReadHdf ReadAuto      *)
-(*           ReadMmap DropRow ConvHdf                                      *)
+(*           ReadMmap DropRow ConvHdf Nudge                                *)
+(*           (Nudge = the user edits an object in memory so that every     *)
+(*           value becomes NEARLY equal to what it was: 9th significant    *)
+(*           digit + 1, sign of zero flipped, + 1 in integer typed columns:*)
+(*           a write after it overwrites nearly equal data and must store  *)
+(*           exactly the new values - Storage_near.cfg)                    *)
 (*           (ConvHdf = colfile_to_hdf(<name of a text columnfile>, hdf,   *)
 (*           name=g): the writer reads the other path's text file itself)  *)
 (*   pars  : SavePars LoadFresh LoadInto                                   *)
@@ -109,6 +114,9 @@
 (*   Storage_tab_d5  thorough table, core operations, depth 5, invariants  *)
 (*   Storage_title   both tiers: table 7, one path, depth 2, emitted; the  *)
 (*                   write-then-read leaves are replayed per title batch   *)
+(*   Storage_near    both tiers: table 8 in both objects, one path, depth  *)
+(*                   3, Nudge between the writers (overwrite with nearly   *)
+(*                   equal data, same length), emitted + replayed          *)
 (*   Storage_par_q/t, Storage_gr_q/t, Storage_sp_q/t  other families       *)
 (*   Storage_stale   expected violation of InvStale (F11 counterexample)   *)
 (*                                                                         *)
@@ -127,6 +135,21 @@
 (*     "f" stand for one integer / one float dtype per history (int32,     *)
 (*     uint16, int64, uint8 / float64, float32; itype uint16, uint32,      *)
 (*     int32); the harness compares dtype.str and the itype attribute.     *)
+(*   - the python TYPE that carries a parameter-like value (header         *)
+(*     parameters, parameter dictionaries, sparse meta attributes, grain   *)
+(*     names and peak counts): TI / TF / TS say int / float / str; the     *)
+(*     harness hands every history's values to the writers as one of       *)
+(*     python objects, numpy float64 / int64 / str_ scalars, 0-d arrays,   *)
+(*     float32 / int32 scalars where the value is one (c18_replay.         *)
+(*     PAR_KINDS, rotating with the history; c18_extra.value_kinds has the *)
+(*     full kind x route matrix): str() of all of them spells the same     *)
+(*     text, so the worlds of this model are expected unchanged.           *)
+(*   - the VALUES of the second seed object relative to the first: in the  *)
+(*     widened pass every second history is a "near twin" (o2's values =   *)
+(*     o1's at the same position changed in the last bit / 6th digit /     *)
+(*     +-1 / sign of zero), so every overwrite of the emitted histories    *)
+(*     (hdf tables, grains, sparse frames, text files in place) is also    *)
+(*     run with nearly equal data; the step laws demand the new values.    *)
 (*   - the dtype of in-memory table columns (float32 columns in the        *)
 (*     widened pass), compression options of colfile_to_hdf, default group *)
 (*     names (harness/c18_extra.py).                                       *)
@@ -362,7 +385,13 @@ Tables == <<
       @@ ("e11e12_s" :> <<V(1, 1234567891, -9), V(1, 100015, 0)>>)
       @@ ("s22s33" :> <<V(-1, 1234567891, -5), V(1, 1, -12)>>)
       @@ ("UBI11" :> <<V(1, 1220703125, -13), V(1, 1234567891, -9)>>)
-      @@ ("foo" :> <<V(1, 78125, -7), NegZero>>))
+      @@ ("foo" :> <<V(1, 78125, -7), NegZero>>)),
+  \* 8: overwrite with nearly equal data (Storage_near.cfg): an integer typed column above 1e5, the
+  \*    12345.67891 class, zero and 1e12, header parameters of the three types
+  Tab(Pars4, <<"Number_of_pixels", "sc", "foo">>,
+      ("Number_of_pixels" :> <<V(1, 25, 4), V(1, 3, 0)>>)
+      @@ ("sc" :> <<V(1, 1234567891, -5), V(1, 5, -1)>>)
+      @@ ("foo" :> <<Zero, V(1, 1, 12)>>))
 >>
 
 Nrows(x) == IF Len(x.titles) = 0 THEN 0 ELSE Len(x.cols[x.titles[1]])
@@ -467,6 +496,26 @@ DropRowOp(w, o) == LET x == w.mem[o]
                    IN IF x.k # "table" \/ Nrows(x) < 2 THEN Fail(w)
                       ELSE SetMem(w, o, [x EXCEPT !.cols = [t \in DOMAIN x.cols |-> SubSeq(x.cols[t], 1, Nrows(x) - 1)]], "ok")
 
+\* ---- nearly equal values.  Grow9 rescales the mantissa to 9 digits, NudgeV adds one unit there (relative
+\* change 1e-9..1e-8: far inside numpy.allclose's 1e-5, far outside a double's 1e-16); zero changes sign.
+\* NudgeI adds 1 to an integral value (integer typed columns: 250000 -> 250001 is "close", 3 -> 4 is not).
+Grow9(v) == LET k == 9 - NDig(v[2]) IN IF k <= 0 THEN v ELSE V(v[1], v[2] * Pow10(k), v[3] - k)
+NudgeV(v) == IF v[2] = 0 THEN V(-v[1], 0, 0)
+             ELSE LET s == Grow9(v) IN Canon(V(s[1], s[2] + 1, s[3]))
+NudgeI(v) == LET c == Canon(v)
+             IN IF c[2] = 0 THEN V(1, 1, 0)
+                ELSE IF c[3] < 0 \/ c[3] > 4 \/ c[2] >= 100000 THEN NudgeV(v)
+                ELSE LET n == c[1] * c[2] * Pow10(c[3]) + 1
+                     IN IF n = 0 THEN Zero ELSE Canon(V(IF n < 0 THEN -1 ELSE 1, Abs(n), 0))
+NudgeOp(w, o) == LET x == w.mem[o]
+                 IN IF x.k # "table" THEN Fail(w)
+                    ELSE SetMem(w, o, [x EXCEPT !.cols = [t \in DOMAIN x.cols |-> [i \in 1..Len(x.cols[t]) |->
+                                          IF IsInt(t) \/ x.dt[t] = "i" THEN NudgeI(x.cols[t][i])
+                                          ELSE NudgeV(x.cols[t][i])]]], "ok")
+ASSUME /\ NudgeV(V(1, 5, -1)) = V(1, 500000001, -9) /\ NudgeV(Zero) = NegZero /\ NudgeV(NegZero) = Zero
+       /\ NudgeV(V(1, 1234567891, -5)) = V(1, 1234567892, -5) /\ NudgeV(V(1, 1, 12)) = V(1, 100000001, 4)
+       /\ NudgeI(V(1, 25, 4)) = V(1, 250001, 0) /\ NudgeI(V(-1, 1, 0)) = Zero /\ NudgeI(V(1, 3, 0)) = V(1, 4, 0)
+
 \* ---- laws of the table family on one world
 TextFiles(w) == {p \in Paths : w.fs[p].k = "text"}
 TextRT(w) == \A p \in TextFiles(w) :
@@ -507,7 +556,7 @@ MemOK(w) == \A o \in Objs : w.mem[o].k = "table" =>
                          /\ \A t \in DOMAIN x.cols : Len(x.cols[t]) = Nrows(x)
                          /\ Len(x.titles) = Cardinality(Range(x.titles))
 
-TableOps == {"WriteText", "ReadText", "WriteHdf", "WriteHdfObj", "ReadHdf", "ReadAuto", "ReadMmap", "DropRow", "ConvHdf"}
+TableOps == {"WriteText", "ReadText", "WriteHdf", "WriteHdfObj", "ReadHdf", "ReadAuto", "ReadMmap", "DropRow", "ConvHdf", "Nudge"}
 
 -----------------------------------------------------------------------------
 \* ============================ family "pars" ===============================
@@ -719,6 +768,7 @@ Apply(w, a, fix) ==
       [] a.op = "ReadMmap"      -> ReadMmapOp(w, a.p, a.g, a.o)
       [] a.op = "DropRow"       -> DropRowOp(w, a.o)
       [] a.op = "ConvHdf"       -> ConvHdfOp(w, a.p, a.g, fix)
+      [] a.op = "Nudge"         -> NudgeOp(w, a.o)
       [] a.op = "SavePars"      -> SaveParsOp(w, a.o, a.p)
       [] a.op = "LoadFresh"     -> LoadFreshOp(w, a.p, a.o)
       [] a.op = "LoadInto"      -> LoadIntoOp(w, a.p, a.o)
@@ -757,6 +807,8 @@ DropRow == "DropRow" \in OpNames /\ \E o \in Objs : /\ wa.mem[o].k = "table" /\ 
 ConvHdf == "ConvHdf" \in OpNames /\ \E p \in Paths, g \in Groups :
                /\ Cardinality(Paths) = 2 /\ wa.fs[Other(p)].k = "text" /\ wf.fs[Other(p)].k = "text"
                /\ Step(Op("ConvHdf", "", p, g))
+Nudge == "Nudge" \in OpNames /\ \E o \in Objs : /\ wa.mem[o].k = "table" /\ wf.mem[o].k = "table"
+                                               /\ Step(Op("Nudge", o, "", ""))
 SavePars == "SavePars" \in OpNames /\ \E o \in Objs, p \in Paths : Step(Op("SavePars", o, p, ""))
 LoadFresh == "LoadFresh" \in OpNames /\ \E o \in Objs, p \in Paths : Exists(p) /\ Step(Op("LoadFresh", o, p, ""))
 LoadInto == "LoadInto" \in OpNames /\ \E o \in Objs, p \in Paths : Exists(p) /\ Step(Op("LoadInto", o, p, ""))
@@ -782,7 +834,7 @@ Init == \E sd \in SeedTuples :
            /\ depth = 0
 
 \* a plain disjunction of named actions (TLC reports coverage per action); OpNames selects the family
-Next == \/ WriteText \/ ReadText \/ WriteHdf \/ WriteHdfObj \/ ReadHdf \/ ReadAuto \/ ReadMmap \/ DropRow \/ ConvHdf
+Next == \/ WriteText \/ ReadText \/ WriteHdf \/ WriteHdfObj \/ ReadHdf \/ ReadAuto \/ ReadMmap \/ DropRow \/ ConvHdf \/ Nudge
         \/ SavePars \/ LoadFresh \/ LoadInto
         \/ WriteGrains \/ ReadGrains \/ WriteUbis \/ ReadUbis \/ WriteGrainsH5 \/ ReadGrainsH5 \/ PutGrainH5 \/ Reverse
         \/ WriteSparse \/ ReadSparse
@@ -808,6 +860,7 @@ SeedsTabQ == {<<1, 2>>, <<1, 3>>, <<4, 5>>, <<6, 3>>}
 SeedsTabT == {<<1, 2>>, <<1, 3>>, <<4, 5>>, <<6, 3>>, <<5, 1>>, <<2, 4>>}
 SeedsStale == {<<1, 2>>}
 SeedsTitle == {<<7, 7>>}
+SeedsNear == {<<8, 8>>}
 SeedsPar == {<<1, 2>>, <<3, 4>>, <<2, 3>>, <<4, 1>>}
 SeedsGr == {<<1, 2>>, <<2, 3>>, <<3, 1>>}
 SeedsSp == {<<1, 2>>, <<1, 3>>, <<4, 2>>, <<3, 4>>}
